@@ -112,6 +112,8 @@ func (t *fnTr) kindOfType(ty types.Type) string {
 			return "bools"
 		case k == "val":
 			return "vlist"
+		case k == "vmap":
+			return "vmaps" // Maps = []Map
 		case strings.HasPrefix(k, "rec:"):
 			return "recs:" + k[4:]
 		}
@@ -166,6 +168,8 @@ func fnCoqType(k string) string {
 		return fnCoqType(k[4:])
 	case k == "vlist":
 		return "(list value)"
+	case k == "vmaps":
+		return "(list entries)"
 	case k == "tok":
 		return "(option nat)"
 	case strings.HasPrefix(k, "rec:"):
@@ -2299,6 +2303,8 @@ func (t *fnTr) rangeStmt(x *ast.RangeStmt, rest []ast.Stmt, end func() string) s
 		out = withIndex("str", "str")
 	case "vlist":
 		out = withIndex("val", "value")
+	case "vmaps":
+		out = withIndex("vmap", "entries")
 	case "vmap":
 		out = t.loop(x, x.Body, xs, func() string { return "'(" + name(x.Key, "str") + ", " + name(x.Value, "val") + ")" }, "(str * value)", rest, end)
 	case "bmap":
@@ -2558,7 +2564,7 @@ func constTable(p *pkgInfo, vs *ast.ValueSpec, i int) (string, bool) {
 
 // the functions translated into Pure_gen.v ("Recv.Method" for methods)
 var pureFuncs = []string{"cast", "escapeChars", "parsePath", "getSubKeyMap", "hasSubKeys", "Map.PathForKeyShortest", "valuesForKeyPath", "hasKey", "hasKeyPath", "getLeafNodes",
-	"Map.ValuesForKey", "Map.oldValuesForPath", "Map.ValuesForPath", "Map.LeafNodes", "getJson", "NewMapJsonReader", "NewMapJsonReaderRaw", "Map.Exists", "Map.ValueForPath", "Map.ValueForKey", "Map.LeafPaths", "Map.LeafValues", "valuesForArray", "Map.PathsForKey", "byteReader.ReadByte", "teeReader.ReadByte"}
+	"Map.ValuesForKey", "Map.oldValuesForPath", "Map.ValuesForPath", "Map.LeafNodes", "getJson", "NewMapJsonReader", "NewMapJsonReaderRaw", "Map.Exists", "Map.ValueForPath", "Map.ValueForKey", "Map.LeafPaths", "Map.LeafValues", "valuesForArray", "Map.PathsForKey", "byteReader.ReadByte", "teeReader.ReadByte", "Maps.JsonString", "Maps.JsonStringIndent", "Maps.XmlString", "Maps.XmlStringIndent"}
 
 func genPure(p *pkgInfo) string {
 	vars, _ := pkgVars(p)
